@@ -39,6 +39,7 @@ RULE = ("lib: random JSON documents (depth <= 5; Unicode, escaped and surrogate-
         "incl. invalid library / missing project / missing or unparseable target. "
         "path shapes: 11 shapes of a project path that names nothing (plain missing, trailing slash, through a regular file, component longer than NAME_MAX, symlink loop and through it, dangling symlink and through it, empty string, missing below a project) and 7 spellings of something that exists (a file for a directory, ., trailing slash, symlink to a project with and without slash, a directory without commands) x every place a project path can be given: generate -p / projectPath in tauri.conf.json / both ways round, generate -c project_path / -p over it, init with an explicit tauri.conf.json target here and elsewhere, init -o <standalone file> (to be created, existing with and without --force); refused runs are judged on a byte snapshot of the whole sandbox; the same shapes as settings of the library entry points validate / from_tauri_config / from_file (15 % of the lib and file-roundtrip cases); 250 random init -o <standalone file> runs. "
         "history: output directories filled by an earlier successful run (.typecache and all generated files present; bindings of a fourth project) in 35 % of the random generate / generate -c / init / init -o cases, and small-scope exhaustive `warm-rejected` streams: every rejection reason (library or project path invalid by flag, by file, by default; -c file missing / malformed / invalid; init target missing / unwritable / existing without --force) x every flag with side effects of its own (--force, --visualize-deps, --verbose, all, -o elsewhere) on generate, generate -c, init, init -o; a refused run must leave the whole sandbox byte-identical, dotfiles included, with unchanged modification times (lstat of every entry). "
+        "decoy files: the working directory's tauri.conf.json carries the entry while another tauri.conf.json (without an entry / with a different one) lies in the directory named by -p, in src-tauri/, in ../ or in an unrelated directory, x 4 flag sets, plus the cases without a working-directory file (54 cases; also 40 % of the random generate cases with -p): every setting not given on the command line must come from the file the search order ./, src-tauri/, ../ selects. "
         "file: 600 settings values through save_to_file/from_file, 600 random standalone documents (right and wrong types, unknown keys) through from_file; "
         "generate -c: all 2^5 flag subsets x 12 standalone-file variants (each setting absent / non-default / equal to its default, all), corpus incl. the seeded force case, random worlds (missing / malformed / invalid file, tauri.conf.json present as a decoy); "
         "build script: BuildSystem::generate_at_build_time() through a driver, 8 fixed + 150 random combinations of tauri.conf.json and typegen.json, force observed through a marker that a non-forced second run must leave alone. "
@@ -856,6 +857,10 @@ def random_generate_case(rng):
           "verbose": rng.random() < 0.3, "viz": rng.random() < 0.2, "force": rng.random() < 0.3}
     if rng.random() < 0.35:
         w["warm"] = random_warm(rng)
+    if fl["project"] in ("./projB", "projB", "./empty") and rng.random() < 0.4:
+        # another tauri.conf.json inside the directory named by -p (not a candidate of the search)
+        w["files"][norm(fl["project"]) + "/tauri.conf.json"] = rng.choice(
+            ['{"productName":"inner"}', sec_text({"outputPath": "./outT", "validationLibrary": "zod", "force": True}), '{"plugins":{}}'])
     return {"world": w, "flags": fl}
 
 
@@ -1482,6 +1487,32 @@ def warm_rejected_cases():
     return gen, genc, init, initfile
 
 
+# ------------------------------------------------------------------ which file supplies the settings not given as flags
+
+def decoy_cases():
+    """The working directory's tauri.conf.json carries the typegen entry; other tauri.conf.json files (without an
+    entry, or with a different one) lie in the directory named by -p, in src-tauri/ and in ../ . The documented
+    search order (./, src-tauri/, ../) selects the file; a flag for one setting must not change which file
+    supplies the others."""
+    main = sec_text({"projectPath": "./projA", "outputPath": "./outF", "validationLibrary": "zod", "verbose": True, "force": True})
+    plain = '{"productName":"inner","plugins":{"shell":{"open":true}}}'
+    other = sec_text({"outputPath": "./outT", "validationLibrary": "none"})
+    cases = []
+    for loc, pflag in (("projB", "./projB"), ("projA", "./projA"), ("projA", "projA"), ("src-tauri", "./src-tauri"), ("..", None), ("empty", "./empty")):
+        for decoy in (plain, other):
+            for extra in ({}, {"output": "./outC"}, {"lib": "none", "viz": True}, {"force": True, "verbose": True}):
+                files = {"tauri.conf.json": main, loc + "/tauri.conf.json": decoy}
+                cases.append({"world": {"src_tauri": "proj", "files": files}, "flags": dict(NOFLAGS, project=pflag, **extra)})
+    # no file in the working directory: the second and third candidates decide, never the -p directory
+    for pflag in ("./projB", "./projA"):
+        cases.append({"world": {"src_tauri": "proj", "files": {"src-tauri/tauri.conf.json": main, pflag[2:] + "/tauri.conf.json": plain}},
+                      "flags": dict(NOFLAGS, project=pflag)})
+        cases.append({"world": {"src_tauri": "proj", "files": {"../tauri.conf.json": main, pflag[2:] + "/tauri.conf.json": other}},
+                      "flags": dict(NOFLAGS, project=pflag)})
+        cases.append({"world": {"src_tauri": "proj", "files": {pflag[2:] + "/tauri.conf.json": other}}, "flags": dict(NOFLAGS, project=pflag)})
+    return cases
+
+
 # ------------------------------------------------------------------ entry points
 
 def build_all():
@@ -1587,6 +1618,9 @@ def run(rep):
     rep.add("warm-rejected-init", eval_init(wi), sample_count=1)
     rep.add("warm-rejected-init-file", eval_initfile(wf), sample_count=1)
     rep.extra["warm_rejected_distribution"] = {"generate": len(wg), "generate_c": len(wc), "init": len(wi), "init_file": len(wf)}
+    dc = decoy_cases()
+    rep.add("generate-decoy-files", eval_generate(dc), sample_count=1)
+    rep.extra["decoy_cases"] = len(dc)
     lap("path shapes done")
     icorpus = [{"world": w, "iflags": il, "name": n} for n, w, il in INIT_CORPUS]
     rep.add("init-corpus", eval_init(icorpus), sample_count=1)
